@@ -67,6 +67,20 @@ def _table(rng, family: str):
     return entries
 
 
+def _with_backslash_n(rng, entries):
+    """sometimes the table knows the letter n and / or the backslash (one-character entries, fresh codes)"""
+    used = {c for _, c in entries}
+    for t in ("n", "\\"):
+        if rng.random() < 0.5 and all(e[0] != t for e in entries):
+            for _ in range(50):
+                c = bytes([rng.randrange(0x80, 0x100), rng.randrange(256), rng.randrange(256)]).hex()
+                if c not in used:
+                    entries.append([t, c])
+                    used.add(c)
+                    break
+    return entries
+
+
 def _string(rng, entries, escapes=True, unknown=True):
     parts = []
     for _ in range(rng.randint(0, 14)):
@@ -75,6 +89,9 @@ def _string(rng, entries, escapes=True, unknown=True):
             parts.append(rng.choice(entries)[0])
         elif k < 0.7:
             parts.append(rng.choice(ALPHA))
+        elif k < 0.74:
+            # a backslash followed by n is two characters of the string like any other two (only table FILES spell a newline so)
+            parts.append(rng.choice(["\\n", "\\n", "n", "\\nn"]))
         elif k < 0.8 and unknown:
             parts.append(rng.choice(UNKNOWN))
         elif k < 0.92 and escapes:
@@ -82,19 +99,28 @@ def _string(rng, entries, escapes=True, unknown=True):
             parts.append(rng.choice(["[0x%x]", "[0x%X]", "[0x%02x]", "[0x%02X]"]) % v)
         elif escapes:
             parts.append(rng.choice(["[0x", "[0xZZ]", "[0x]", "[x41]", "0x41]", "[0x4"]))
-    return "".join(parts)
+    out = "".join(parts)
+    # in a quoted string of a source file a backslash takes the next character with it: only the pair backslash + n is written
+    fixed = []
+    for i, ch in enumerate(out):
+        fixed.append(ch)
+        if ch == "\\" and out[i + 1:i + 2] != "n":
+            fixed.append("n")
+    return "".join(fixed)
 
 
 def _build(rng):
     family = rng.choice(["general", "general", "prefixfree", "single"])
     entries = _table(rng, family)
+    if family == "general":
+        entries = _with_backslash_n(rng, entries)
     other = _table(rng, "general")
     esc = family == "general" or rng.random() < 0.3
     strings = [_string(rng, entries, escapes=esc) for _ in range(5)]
     mode = rng.choice(["api", "api", "program", "program", "program-sibling-only", "program-expansions"])
     if rng.random() < 0.5 and entries:
         # make sure the last entry of the file is used (the file may end without a line terminator)
-        strings[0] = strings[0] + entries[-1][0]
+        strings[0] = strings[0] + entries[-1][0] + ("n" if entries[-1][0].endswith("\\") else "")
     if rng.random() < 0.06:
         # strings longer than 256 / 512 source characters (entries, escapes and unknown characters across those offsets)
         strings[3] = "".join(_string(rng, entries, escapes=esc) for _ in range(rng.choice([40, 60, 120])))
